@@ -70,6 +70,7 @@ def _run_case(case: dict) -> dict:
         a = rng.choice(vs)
         spec["components"].append({"kind": "reaction", "name": "vms", "fn": fl.ref(tb.t_modconst), "args": [a, rng.choice(ks)], "stoich": {a: -1.0}})
         spec["components"].append({"kind": "derived", "name": "dma", "fn": fl.ref(tb.t_modattr), "args": [rng.choice(vs), rng.choice(ks)]})
+        spec["components"].append({"kind": "derived", "name": "dcn", "fn": fl.ref(tb.t_constnames), "args": [rng.choice(vs), rng.choice(ks)]})  # attributes called tau, e, pi
         feats = sorted({*feats, "module_state"})
     model = rm.build(spec)
     if module_state:
